@@ -54,6 +54,10 @@ type c01Ver struct {
 	// endpoint value with only that list replaced (used for the "reorder ProfileIDs only" move).
 	Profiles []string
 	Reorder  func(profiles []string) c01Ver
+	// IPs: a workload endpoint's addresses; TunnelAddrs: a node's tunnel addresses (VXLAN v4/v6, IPIP,
+	// WireGuard v4/v6) -- for class accounting only.
+	IPs         []string
+	TunnelAddrs []string
 	// Labels: the endpoint's own labels / a profile's labelsToApply (for class accounting only).
 	Labels map[string]string
 }
@@ -80,6 +84,12 @@ type c01Universe struct {
 	// PreferVXLAN biases pools towards VXLAN modes and nodes towards having a BGP IPv4 address, so
 	// that VTEPs and routes that need them coexist often ("vxlan" focus).
 	PreferVXLAN bool
+	// HostWEPIPs collects, per host, the addresses drawn so far for workload endpoints on that host; a
+	// node's tunnel addresses are drawn from the same vocabulary and, in TunnelCollide cases, mostly
+	// from this list, so that one address is both a tunnel address and a workload IP on the same node
+	// (the IPAM-leak situation the route resolver documents it must tolerate).
+	HostWEPIPs    map[string][]string
+	TunnelCollide bool
 	// VTEP scenario: pool 10.0.0.0/16 is a VXLAN pool, node rhost has a BGP IPv4 address and block
 	// 10.0.1.0/29 is affine to rhost, so that a VXLAN block route via rhost and rhost's VTEP coexist
 	// and the history can then modify the VTEP.
@@ -526,8 +536,9 @@ func c01RulesDesc(specs []c01RuleSpec) string {
 
 // ---- slot value generators --------------------------------------------------------------------
 
-func c01GenWEP(ifacePrefix string, local bool) func(t *rapid.T, u *c01Universe, label string) c01Ver {
+func c01GenWEP(ifacePrefix string, host string) func(t *rapid.T, u *c01Universe, label string) c01Ver {
 	return func(t *rapid.T, u *c01Universe, label string) c01Ver {
+		local := host == c01Local
 		name := ifacePrefix
 		profiles := c01SubsetOrdered(t, label+".profiles", c01ProfileIDs, 3)
 		v4 := c01SubsetOrdered(t, label+".v4", c01V4Addrs, 2)
@@ -544,6 +555,9 @@ func c01GenWEP(ifacePrefix string, local bool) func(t *rapid.T, u *c01Universe, 
 			}
 		}
 		v6 := c01SubsetOrdered(t, label+".v6", c01V6Addrs, 1)
+		if u.HostWEPIPs != nil {
+			u.HostWEPIPs[host] = append(append(u.HostWEPIPs[host], v4...), v6...)
+		}
 		labels := c01Labels(t, label)
 		ports, invalid := c01EndpointPorts(t, label, true)
 		var spoof []string
@@ -575,26 +589,27 @@ func c01GenWEP(ifacePrefix string, local bool) func(t *rapid.T, u *c01Universe, 
 			profiles = append([]string(nil), profiles...)
 			desc := fmt.Sprintf("WEP{name=%q profiles=%v v4=%v v6=%v labels=%s ports=%v spoof=%v mac=%v}",
 				name, profiles, v4, v6, c01LabelsDesc(labels), ports, spoof, withMAC)
-			return c01Ver{Desc: desc, Invalid: invalid, Profiles: profiles, Labels: labels, Reorder: mk, Mk: func() any {
-				w := &model.WorkloadEndpoint{
-					State:                      "active",
-					Name:                       name,
-					ProfileIDs:                 append([]string(nil), profiles...),
-					IPv4Nets:                   c01Nets(v4, "/32"),
-					IPv6Nets:                   c01Nets(v6, "/128"),
-					Labels:                     uniquelabels.Make(c01CloneMap(labels)),
-					Ports:                      c01MkPorts(ports),
-					AllowSpoofedSourcePrefixes: c01Nets(spoof, ""),
-				}
-				if withMAC {
-					var mac calinet.MAC
-					if err := mac.UnmarshalJSON([]byte(`"01:02:03:04:05:06"`)); err != nil {
-						panic("HARNESS-GAP: mac parse: " + err.Error())
+			return c01Ver{Desc: desc, Invalid: invalid, Profiles: profiles, Labels: labels, Reorder: mk,
+				IPs: append(append([]string(nil), v4...), v6...), Mk: func() any {
+					w := &model.WorkloadEndpoint{
+						State:                      "active",
+						Name:                       name,
+						ProfileIDs:                 append([]string(nil), profiles...),
+						IPv4Nets:                   c01Nets(v4, "/32"),
+						IPv6Nets:                   c01Nets(v6, "/128"),
+						Labels:                     uniquelabels.Make(c01CloneMap(labels)),
+						Ports:                      c01MkPorts(ports),
+						AllowSpoofedSourcePrefixes: c01Nets(spoof, ""),
 					}
-					w.Mac = &mac
-				}
-				return w
-			}}
+					if withMAC {
+						var mac calinet.MAC
+						if err := mac.UnmarshalJSON([]byte(`"01:02:03:04:05:06"`)); err != nil {
+							panic("HARNESS-GAP: mac parse: " + err.Error())
+						}
+						w.Mac = &mac
+					}
+					return w
+				}}
 		}
 		return mk(profiles)
 	}
@@ -909,7 +924,44 @@ func c01GenNode(name string) func(t *rapid.T, u *c01Universe, label string) c01V
 		if rapid.Bool().Draw(t, label+".hasLabel") {
 			labels["rack"] = rapid.SampledFrom([]string{"r1", "r2"}).Draw(t, label+".rack")
 		}
-		vxlanAddr := rapid.SampledFrom([]string{"", "", "10.0.9.1"}).Draw(t, label+".specVXLAN")
+		// Tunnel addresses come from the workload address vocabulary (plus one address nobody else
+		// uses), so that a tunnel address can coincide with a workload IP; in TunnelCollide cases they
+		// are mostly taken from the addresses already drawn for workloads on this very node.
+		tunnel := func(l string, v6fam bool, oneIn int) string {
+			if !c01OneIn(t, label+"."+l, oneIn) {
+				return ""
+			}
+			vocab := append([]string{"10.0.9.1"}, c01V4Addrs...)
+			if v6fam {
+				vocab = append([]string{"fd00:10::99"}, c01V6Addrs...)
+			}
+			a := rapid.SampledFrom(vocab).Draw(t, label+"."+l+".addr")
+			if u.TunnelCollide {
+				var same []string
+				for _, ip := range u.HostWEPIPs[name] {
+					if strings.Contains(ip, ":") == v6fam {
+						same = append(same, ip)
+					}
+				}
+				if len(same) > 0 && rapid.IntRange(0, 7).Draw(t, label+"."+l+".sameNode") > 0 {
+					a = rapid.SampledFrom(same).Draw(t, label+"."+l+".wepAddr")
+				}
+			}
+			return a
+		}
+		rate := 4
+		if u.TunnelCollide {
+			rate = 2
+		}
+		vxlanRate := rate
+		if u.TunnelCollide && name == c01Local {
+			vxlanRate = 1
+		}
+		vxlanAddr := tunnel("specVXLAN", false, vxlanRate)
+		vxlanAddrV6 := tunnel("specVXLANv6", true, rate+2)
+		ipipAddr := tunnel("ipipTunnel", false, rate+1)
+		wgAddr := tunnel("wireguardV4", false, rate+2)
+		wgAddrV6 := tunnel("wireguardV6", true, rate+3)
 		invalid := false
 		if u.PreferVXLAN && rapid.IntRange(0, 3).Draw(t, label+".preferBGPv4") > 0 {
 			bgpForm = "bgp"
@@ -940,16 +992,30 @@ func c01GenNode(name string) func(t *rapid.T, u *c01Universe, label string) c01V
 		if c01OneIn(t, label+".badaddr", 25) {
 			bgpForm, v4, invalid = "bgp", "not-an-ip", true
 		}
-		desc := fmt.Sprintf("Node{form=%s v4=%q v6=%q labels=%s specVXLAN=%q}", bgpForm, v4, v6, c01LabelsDesc(labels), vxlanAddr)
-		return c01Ver{Desc: desc, Invalid: invalid, Mk: func() any {
+		if bgpForm != "bgp" {
+			ipipAddr = "" // the IPIP tunnel address lives in the BGP spec
+		}
+		desc := fmt.Sprintf("Node{form=%s v4=%q v6=%q labels=%s specVXLAN=%q specVXLANv6=%q ipip=%q wg=%q wg6=%q}",
+			bgpForm, v4, v6, c01LabelsDesc(labels), vxlanAddr, vxlanAddrV6, ipipAddr, wgAddr, wgAddrV6)
+		var tunnels []string
+		for _, a := range []string{vxlanAddr, vxlanAddrV6, ipipAddr, wgAddr, wgAddrV6} {
+			if a != "" {
+				tunnels = append(tunnels, a)
+			}
+		}
+		return c01Ver{Desc: desc, Invalid: invalid, TunnelAddrs: tunnels, Mk: func() any {
 			n := &internalapi.Node{
 				TypeMeta:   metav1.TypeMeta{Kind: internalapi.KindNode, APIVersion: v3.GroupVersionCurrent},
 				ObjectMeta: metav1.ObjectMeta{Name: name, Labels: c01CloneMap(labels)},
 			}
 			n.Spec.IPv4VXLANTunnelAddr = vxlanAddr
+			n.Spec.IPv6VXLANTunnelAddr = vxlanAddrV6
+			if wgAddr != "" || wgAddrV6 != "" {
+				n.Spec.Wireguard = &internalapi.NodeWireguardSpec{InterfaceIPv4Address: wgAddr, InterfaceIPv6Address: wgAddrV6}
+			}
 			switch bgpForm {
 			case "bgp":
-				n.Spec.BGP = &internalapi.NodeBGPSpec{IPv4Address: v4, IPv6Address: v6}
+				n.Spec.BGP = &internalapi.NodeBGPSpec{IPv4Address: v4, IPv6Address: v6, IPv4IPIPTunnelAddr: ipipAddr}
 			case "addresses":
 				if v4 != "" {
 					n.Spec.Addresses = append(n.Spec.Addresses, internalapi.NodeAddress{Address: v4, Type: internalapi.InternalIP})
@@ -973,19 +1039,19 @@ func c01GenHostCfg(values []string) func(t *rapid.T, u *c01Universe, label strin
 // ---- the catalogue ------------------------------------------------------------------------------
 
 func c01NewUniverse(spoofingAllowed, steerBlocks, steerLocalNode bool) *c01Universe {
-	u := &c01Universe{SpoofingAllowed: spoofingAllowed, SteerBlocks: steerBlocks, SteerLocalNode: steerLocalNode, Steered: map[string]bool{}}
+	u := &c01Universe{SpoofingAllowed: spoofingAllowed, SteerBlocks: steerBlocks, SteerLocalNode: steerLocalNode, Steered: map[string]bool{}, HostWEPIPs: map[string][]string{}}
 	add := func(name, class string, key model.Key, gen func(t *rapid.T, u *c01Universe, label string) c01Ver) {
 		u.Slots = append(u.Slots, c01Slot{Name: name, Class: class, Key: key, Gen: gen})
 	}
 	wep := func(host, wl string) model.WorkloadEndpointKey {
 		return model.WorkloadEndpointKey{Hostname: host, OrchestratorID: "k8s", WorkloadID: "ns1/" + wl, EndpointID: "eth0"}
 	}
-	add("wep/l1", "wep-local", wep(c01Local, "l1"), c01GenWEP("cali1", true))
-	add("wep/l2", "wep-local", wep(c01Local, "l2"), c01GenWEP("cali2", true))
-	add("wep/l3", "wep-local", wep(c01Local, "l3"), c01GenWEP("cali3", true))
-	add("wep/r1", "wep-remote", wep(c01Remote, "r1"), c01GenWEP("calir1", false))
-	add("wep/r2", "wep-remote", wep(c01Remote, "r2"), c01GenWEP("calir2", false))
-	add("wep/q1", "wep-remote", wep(c01Remote2, "q1"), c01GenWEP("caliq1", false))
+	add("wep/l1", "wep-local", wep(c01Local, "l1"), c01GenWEP("cali1", c01Local))
+	add("wep/l2", "wep-local", wep(c01Local, "l2"), c01GenWEP("cali2", c01Local))
+	add("wep/l3", "wep-local", wep(c01Local, "l3"), c01GenWEP("cali3", c01Local))
+	add("wep/r1", "wep-remote", wep(c01Remote, "r1"), c01GenWEP("calir1", c01Remote))
+	add("wep/r2", "wep-remote", wep(c01Remote, "r2"), c01GenWEP("calir2", c01Remote))
+	add("wep/q1", "wep-remote", wep(c01Remote2, "q1"), c01GenWEP("caliq1", c01Remote2))
 	add("hep/lh1", "hep-local", model.HostEndpointKey{Hostname: c01Local, EndpointID: "lh1"}, c01GenHEP)
 	add("hep/lh2", "hep-local", model.HostEndpointKey{Hostname: c01Local, EndpointID: "lh2"}, c01GenHEP)
 	add("hep/rh1", "hep-remote", model.HostEndpointKey{Hostname: c01Remote, EndpointID: "rh1"}, c01GenHEP)
